@@ -30,6 +30,26 @@ def main():
             mp, rp2 = os.path.join(sroot, name, "meta.json"), os.path.join(sroot, name, "result.json")
             if os.path.exists(mp) and os.path.exists(rp2):
                 srows.append((name, json.load(open(mp)), json.load(open(rp2))))
+    brows = [(n, m, r) for n, m, r in srows if m.get("kind") == "benign"]
+    srows = [(n, m, r) for n, m, r in srows if m.get("kind") != "benign"]
+    if brows:
+        out += ["### Benign changes written by independent sub-agents (legal alternative implementations; the check must stay quiet)", "",
+                "| id | property | change | tests pass with it | check result |", "|---|---|---|---|---|"]
+        for name, meta, res in brows:
+            r = "; ".join(f"{p}: {'quiet' if c['exit'] == 0 else 'ALARM exit ' + str(c['exit'])} ({c['seconds']}s)" for p, c in res.get("checks", {}).items())
+            out.append(f"| {name} | {meta['property']} | {meta['what']} | {'yes' if res.get('tests_pass_with_change') else 'no'} | {r} |")
+        out.append("")
+    bp = os.path.join(VERIF, "mutants", "BENIGN.json")
+    if os.path.exists(bp):
+        out += ["### Hand-written benign variants (`mutants/defs.py` list B, `./check selftest benign`)", "",
+                "| variant | what it does | survives the tests | checks run against it (all must exit 0) |", "|---|---|---|---|"]
+        for r in json.load(open(bp)):
+            if "error" in r:
+                out.append(f"| {r['mutant']} | ({r['error']}) | | |")
+                continue
+            cs = ", ".join(f"{p}: {'quiet' if c.get('exit') == 0 else 'ALARM exit ' + str(c.get('exit'))}" for p, c in r["checks"].items())
+            out.append(f"| {r['mutant']} | {r['note']} | {'yes' if r['survives_tests'] else 'no'} | {cs} |")
+        out.append("")
     if srows:
         out += ["### Changes written by independent sub-agents (`seeded/<id>/`, `tools/run_seeded.py`)", "",
                 "| id | property | change | needs, to manifest | tests pass with it | demo with / without | first run of the machinery | detected by (now) | missed by |",
